@@ -1,6 +1,7 @@
 package isaacdatabase
 
 import (
+	"bytes"
 	"context"
 	"math"
 
@@ -369,7 +370,18 @@ func (db *LeveldbPermanent) mergeTempDatabaseFromLeveldb(ctx context.Context, te
 	batch := pst.NewBatch()
 	defer batch.Reset()
 
+	// NOTE blockmap is written after all the others; block is visible by it's
+	// blockmap
+	mpbatch := pst.NewBatch()
+	defer mpbatch.Reset()
+
 	if err := tpst.Iter(nil, func(k, v []byte) (bool, error) {
+		if bytes.HasPrefix(k, leveldbKeyPrefixBlockMap[:]) {
+			mpbatch.Put(k, v)
+
+			return true, nil
+		}
+
 		if batch.Len() == db.batchlimit {
 			b := batch
 
@@ -400,6 +412,10 @@ func (db *LeveldbPermanent) mergeTempDatabaseFromLeveldb(ctx context.Context, te
 	worker.Done()
 
 	if err := worker.Wait(); err != nil {
+		return e.Wrap(err)
+	}
+
+	if err := pst.Batch(mpbatch, nil); err != nil {
 		return e.Wrap(err)
 	}
 
